@@ -40,9 +40,16 @@ def run(rep, tier, seed, replay=None):
     trusted = [
         'hand models Model/Leaf.v, Model/Root.v (compute_leaf_layout, compute_root_layout for a childless root), Model/BoxSizing.v '
         '(bs_resolve, to_border_box, minimum_contribution_axis): tied to the source by K (leaf/root), fingerprints and the oracle',
-        'the flex / grid container-level sites (containers, their item lists, GridItem) are covered by the site-scan obligation (every '
+        'the GRID container-level sites (containers, their item lists, GridItem) are covered by the site-scan obligation (every '
         'use adjusted, generated table) + the idiom theorem + the whole-tree oracle, not by a kernel theorem: BoxSizingBlind is a premise '
         'of C12_engine for them',
+        'the FLEX sites (compute_flexbox_layout / compute_constants / generate_anonymous_flex_items / determine_flex_base_size / '
+        'determine_used_cross_size / the absolute pass) are proved in Gallina on Model/FlexAlg.v flex_alg = all of compute_flexbox_layout as '
+        'a resumption (C12_flex_resolutions_blind, C12_flex_algorithm_box_sizing_blind: premise-free) -- tied event by event and bit for bit '
+        'by `vh flexalg cases` (re-run here) -- and composed with block containers and leaves in the engine Model/BlockFlexK.v '
+        '(C12_blockflex_engine_instance; hand composition: dispatch no children -> leaf / display:flex -> flex / else block, exact-key memo); '
+        'the per-node rewrite of the engine theorem leaves flex_basis alone (class: flex_basis not a length), the algorithm theorem covers '
+        'length flex_basis rewritten along the container\'s main axis',
         'the block sites (compute_block_layout / compute_inner / generate_item_list) are proved in Gallina on the hand models Model/Block.v '
         '(C12_block_resolutions_blind) and composed through the engine skeleton for trees of block containers and leaves '
         '(C12_block_engine_instance: Model/BlockAlg.v + Model/BlockEngine.v, exact-key memo; absolute pass = parameter abs_child, premise '
@@ -78,6 +85,10 @@ def run(rep, tier, seed, replay=None):
     if not replay:
         from . import _blocktree
         _blocktree.tree_k(rep, 'C12', binp, (seed ^ 0xC12) & 0x7fffffff, 3000 if (tier != 'quick' or mine) else 300)
+        # ---- the flex resumption the C12_flex_algorithm_box_sizing_blind / C12_blockflex_engine_* theorems are about (Model/FlexAlg.v flex_alg =
+        # all of compute_flexbox_layout): event by event, bit for bit
+        from . import _flexalg as FA
+        FA.flexalg_k(rep, 'C12', binp, (seed ^ 0xF12) & 0x7fffffff, 1500 if (tier != 'quick' or mine) else 300, payload_is_broken=True)
 
     # ---- K: leaf / root, content-box style and its rewrite
     n = 1200 if tier == "quick" else 20000
